@@ -421,6 +421,15 @@ func runC20(c *Ctx) {
 			c.undecided("sends@"+funcName(w), w.Pos(), "too many paths")
 		} else {
 			c.check(mx <= 1, "sends@"+funcName(w), w.Pos(), fmt.Sprintf("at most %d send per path", mx), fmt.Sprintf("a path sends %d results: with capacity for one per worker the extra send blocks the goroutine forever", mx))
+			// and a worker that ran its sequence reports: every path on which Exec was called contains a send (the
+			// caller waits for one result per worker; a silent worker leaves it waiting until its context ends)
+			if ex, _ := execOf(w); ex != nil {
+				_, silent := reachAvoiding(ex, func(x ssa.Instruction) bool { return isReturn(x) && x.Block().Comment != "recover" }, func(x ssa.Instruction) bool {
+					_, ok := isSendR(x)
+					return ok
+				})
+				c.check(!silent, "reports@"+funcName(w), instrPos(ex), "after running its sequence the worker always sends a result (nil on failure)", "a path of the worker returns after running its sequence without sending a result: when both workers fail the caller keeps waiting for a result that never comes (forever with an unbounded context) instead of returning the failure")
+			}
 		}
 	}
 	{
@@ -475,8 +484,56 @@ func runC20(c *Ctx) {
 			if ch, ok := chanOfRecv(ci.Call.Args[1]); ok && chanID(ch) == R {
 				recv = true
 			}
-			c.check(g && recv, "caller-skips-nil", instrPos(in), "only a non-nil received result becomes the response", "the caller accepts a nil result or a value that was not received from the result channel")
+			// and every non-nil result is accepted: beyond the receive case and `r != nil` nothing stands before it
+			extra := ""
+			for _, gd := range guardsOfInstr(in) {
+				if callerSel != nil && !instrDominates(callerSel, gd.If) {
+					continue
+				}
+				if cm, ok := gd.asCmp(); ok && cm.Op == token.NEQ && isNilConst(cm.Y) && cm.X == ci.Call.Args[1] {
+					continue
+				}
+				if cm, ok := gd.asCmp(); ok {
+					if ex, isEx := cm.X.(*ssa.Extract); isEx && ex.Index == 0 {
+						if _, isSel := ex.Tuple.(*ssa.Select); isSel {
+							continue // select case index
+						}
+					}
+				}
+				extra = guardText(gd)
+			}
+			c.check(g && recv && extra == "", "caller-skips-nil", instrPos(in), "exactly the non-nil received results become the response", "the caller accepts a nil result, a value that was not received from the result channel, or skips some non-nil results ("+extra+"): a usable answer is thrown away and the call waits for nothing")
 		})
+		if md := c.fn(relFallback, "", "makeDdlCtx"); md != nil {
+			// the workers' context carries the caller's deadline (or now+timeout), nothing later
+			good := false
+			for _, r := range returnsOf(md) {
+				rv := returnedValues(r)
+				ex, ok := rv[0].(*ssa.Extract)
+				if !ok {
+					continue
+				}
+				cl, ok := ex.Tuple.(*ssa.Call)
+				if !ok || callName(cl) != "context.WithDeadline" {
+					continue
+				}
+				okAll, n := true, 0
+				for _, lf := range expandCases(cl.Call.Args[1], nil, 0) {
+					n++
+					if e2, ok := lf.val.(*ssa.Extract); ok {
+						if c2, ok := e2.Tuple.(*ssa.Call); ok && callName(c2) == "invoke:(context.Context).Deadline" && c2.Call.Value == ssa.Value(md.Params[0]) {
+							continue
+						}
+					}
+					if c3, ok := lf.val.(*ssa.Call); ok && callName(c3) == "(time.Time).Add" && c3.Call.Args[1] == ssa.Value(md.Params[1]) {
+						continue
+					}
+					okAll = false
+				}
+				good = okAll && n == 2
+			}
+			c.check(good, "worker-deadline:helper", md.Pos(), "makeDdlCtx = WithDeadline(Background, caller's deadline or now+timeout)", "makeDdlCtx does not carry the caller's deadline (or now+timeout): workers outlive the call")
+		}
 		// loop bound
 		iv := int64(-1)
 		var loopIf *ssa.If
@@ -513,7 +570,7 @@ func runC20(c *Ctx) {
 	checkPooledTimers(c)
 
 	// ---------------------------------------------------------------- R6
-	c.rule("R6", "workers run on copies of the query context taken before the goroutine starts, with a deadline context from the caller", 4)
+	c.rule("R6", "workers run on their own copies of the query context taken before the goroutine starts, with a deadline context from the caller; the threshold is the configured number of milliseconds", 6)
 	for _, w := range workers {
 		ci, which := execOf(w)
 		if ci == nil {
@@ -553,6 +610,70 @@ func runC20(c *Ctx) {
 			}
 		}
 		c.check(good, "worker-deadline:"+which, instrPos(ci), "context from makeDdlCtx(caller ctx)", "the "+which+" worker's context is not derived from the caller's deadline")
+	}
+	// the workers do not share a copy: each worker's context originates from its own Copy() call
+	{
+		seen := map[ssa.Value]string{}
+		shared := ""
+		for _, w := range workers {
+			ci, which := execOf(w)
+			if ci == nil {
+				continue
+			}
+			tr := p.newTracer()
+			tr.throughParams, tr.throughFields, tr.throughCalls = false, false, false
+			for _, r := range tr.origins(callArgs(ci)[2]) {
+				if other, dup := seen[r]; dup && other != which {
+					shared = other + " and " + which
+				}
+				seen[r] = which
+			}
+		}
+		c.check(shared == "" && len(seen) >= 2, "worker-copies-distinct", df.Pos(), "each worker has its own copy of the query context", "the "+shared+" workers run on the same context copy: they race on it and the primary can hand the caller the answer the secondary stored")
+	}
+	// the threshold: milliseconds from the configuration, default when not positive
+	if np := c.fn(relFallback, "", "newFallbackPlugin"); np != nil {
+		c.see(np)
+		good, why := false, "fastFallbackDuration is not set from the configured threshold"
+		for _, w := range p.whoWrites().byField[relFallback+".fallback.fastFallbackDuration"] {
+			if w.Fn != np {
+				why = "written outside the constructor"
+				continue
+			}
+			okAll, n := true, 0
+			for _, lf := range expandCases(w.Val, nil, 0) {
+				n++
+				if k, isC := constInt(lf.val); isC {
+					if k != 500*1000000 {
+						okAll, why = false, fmt.Sprintf("default threshold is %d ns, not 500 ms", k)
+					}
+					continue
+				}
+				bo, ok := lf.val.(*ssa.BinOp)
+				if !ok || bo.Op != token.MUL {
+					okAll, why = false, "the configured threshold is used as "+exprStr(lf.val)+" (not multiplied by time.Millisecond): the gate opens after nanoseconds and the secondary always starts"
+					continue
+				}
+				x, y := bo.X, bo.Y
+				if k, isC := constInt(x); isC && k == 1000000 {
+					x, y = y, x
+				}
+				if k, isC := constInt(y); !isC || k != 1000000 {
+					okAll, why = false, "the configured threshold is not scaled by time.Millisecond"
+					continue
+				}
+				cv, ok := x.(*ssa.Convert)
+				if !ok {
+					okAll, why = false, "unexpected threshold expression "+exprStr(x)
+					continue
+				}
+				if k, _ := loadedField(cv.X); !strings.HasSuffix(k, ".Args.Threshold") {
+					okAll, why = false, "the threshold is taken from "+exprStr(cv.X)
+				}
+			}
+			good = okAll && n >= 2
+		}
+		c.check(good, "threshold-unit", np.Pos(), "threshold = args.Threshold ms, default 500 ms", why)
 	}
 }
 
